@@ -632,6 +632,29 @@ def classify(ctx, prop, fails):
         ctx.report('property', sig,
                    '%s %s on %r: %s (disappears with the proposed repair)' % (t[1], t[2], t[3], describe(prop, bad)),
                    failing_input=fi(prop, t, f, bad, spans), property_fails=True)
+    # C12, NumberWithUnit: ONE mechanism, recognisable on the output alone — a unit symbol standing between two numbers is
+    # claimed as the suffix unit of the left entity AND as the prefix unit of the right one ('$20 €15' -> '$20 €' + '€15',
+    # '10 $ 30 $' -> '10 $' + '$ 30 $'): every overlapping pair of the query shares nothing but a digit-free stretch that
+    # ends the left entity and starts the right one. Keyed by model type (a call site), not by input: the noise pool of the
+    # thorough tier produces new inputs of this shape at will; any OTHER overlap keeps its input-keyed signature.
+    if prop == 'C12':
+        still = []
+        for x in remaining:
+            (t, f, bad, spans) = x
+            def shared_symbol(a, b):
+                (a, b) = (a, b) if (a[0], a[1]) <= (b[0], b[1]) else (b, a)
+                if not (isinstance(a[0], int) and isinstance(b[0], int)) or not (a[0] < b[0] <= a[1] < b[1]):
+                    return False
+                shared = t[3][b[0]:a[1] + 1]
+                return 0 < len(shared) <= 6 and not any(c.isdigit() for c in shared) and shared.strip() != ''
+            if t[0] == 'NumberWithUnit' and keyed_signature(prop, t) not in recorded and bad and all(shared_symbol(a, b) for a, b in bad):
+                ctx.report('property', 'nwu-shared-unit-symbol:%s' % t[1],
+                           '%s %s on %r: %s (one unit symbol claimed as suffix of the left and prefix of the right entity)' % (
+                               t[1], t[2], t[3], describe(prop, bad)),
+                           failing_input=fi(prop, t, f, bad, spans), property_fails=True)
+            else:
+                still.append(x)
+        remaining = still
     for (t, f, bad, spans) in remaining:
         kind = 'span' if prop == 'C01' else 'overlap'
         sig = '%s:%s:%s:%s' % (kind, t[2], t[1], sha(t[3]))
